@@ -68,3 +68,89 @@ def valid_numbers(modname, limit=40):
     out.sort(key=lambda s: (len(s) > 40, s))
     _CACHE[modname] = out
     return out[:limit]
+
+
+_SYNTH = {}
+
+
+def synth_valid(modname, k=40, seed=0):
+    """further valid numbers of a module: payload digits/letters of corpus numbers are changed at random and every check
+    character that validate() compares with a generator is recomputed with that generator (in dependency order).
+    Only numbers the real is_valid() accepts are returned.  Bounded stand-ins only."""
+    key = (modname, k, seed)
+    if key in _SYNTH:
+        return _SYNTH[key]
+    import random
+    from .props import c05
+    mod = importlib.import_module(modname)
+    rnd = random.Random(seed)
+    out = []
+    try:
+        vfn, rels = c05.relations(mod)
+        if not rels:
+            rels = c05.convention_relations(mod)
+    except Exception:      # noqa: B902
+        rels = []
+    base = []
+    for x in valid_numbers(modname, 10):
+        try:
+            base.append(mod.validate(x))
+        except Exception:      # noqa: B902
+            pass
+    seen = set(base)
+    tries = 0
+    while base and len(out) < k and tries < k * 30:
+        tries += 1
+        v = rnd.choice(base)
+        chars = list(v)
+        app = []
+        for g, arg_e, pos_e, op, var in rels:
+            pos = c05.indices(pos_e, var.split(':')[0], len(v))
+            arg = c05.indices(arg_e, var.split(':')[0], len(v))
+            if not pos or not arg or op not in ('NotEq', 'Eq'):
+                continue
+            try:
+                ck = g(''.join(v[a] for a in arg))
+            except Exception:      # noqa: B902
+                continue
+            if isinstance(ck, str) and len(ck) == len(pos) and all(v[p_] == c for p_, c in zip(pos, ck)):
+                app.append((g, arg, pos))
+        allpos = {p_ for g, arg, pos in app for p_ in pos}
+        ordered, rest = [], list(app)
+        while rest:
+            free = [r_ for r_ in rest if not any(set(o[2]) & set(r_[1]) for o in rest if o is not r_)]
+            if not free:
+                break
+            ordered += free
+            rest = [r_ for r_ in rest if r_ not in free]
+        for _ in range(rnd.randint(1, 4)):
+            i = rnd.randrange(len(chars))
+            if i in allpos:
+                continue
+            if chars[i].isdigit():
+                chars[i] = rnd.choice('0123456789')
+            elif chars[i].isalpha() and chars[i].isascii():
+                chars[i] = rnd.choice('ABCDEFGHIJKLMNOPQRSTUVWXYZ')
+        ok = True
+        for g, arg, pos in ordered:
+            try:
+                ck = g(''.join(chars[a] for a in arg))
+            except Exception:      # noqa: B902
+                ok = False
+                break
+            if not isinstance(ck, str) or len(ck) != len(pos):
+                ok = False
+                break
+            for p_, c in zip(pos, ck):
+                chars[p_] = c
+        y = ''.join(chars)
+        if not ok or y in seen:
+            continue
+        try:
+            if mod.is_valid(y) and mod.validate(y) == y:
+                out.append(y)
+                seen.add(y)
+        except Exception:      # noqa: B902
+            pass
+    _SYNTH[key] = out
+    return out
